@@ -23,6 +23,7 @@
 -/
 import DDProofs.SmallReorder
 import DDProps.C07
+import DD.ApiCore
 open Std
 
 namespace DD
@@ -117,5 +118,43 @@ example : Covered [("a", 7), ("b", -2)] exM.nvars exM ∧ Covered [("a", 0), ("b
 /-- wrong length -/
 example : reorder (some [("a", 0)]) exM = (.error .value, exM) :=
   (C17_reorder_any_order exExt exM exM_reorderInv _).1 (by decide)
+
+/-! ### `_assert_valid_ordering`
+
+The only places where a table of levels is VALIDATED (`set(levels.values()) == set(range(n))`:
+no duplicate level, no gap, nothing out of range) are the constructor `BDD(levels)` and
+`_assert_isomorphic_orders` (used by `copy_bdd` / the loaders).  In the constructor it runs before
+any field of the new manager exists, so a rejected table leaves no manager behind; names are not
+checked at all (they are `dict` keys).  `apiValidOrdering` (DD.ApiCore) is the model of the check
+(the driver's `BDD(levels)` line, `DD.newMgr`, inlines the same expression and answers
+`AssertionError` with no manager). -/
+
+/-- C17 (`_assert_valid_ordering(levels)`): accepted iff the levels are exactly `0..n-1` — every
+number of `range(n)` occurs (so, with `n` entries: no duplicate, no gap) and every level is in
+range; `_assert_isomorphic_orders` raises `AssertionError` for a bad table on either side, before
+comparing anything -/
+theorem C17_valid_ordering_spec (levels : List (String × Int)) :
+    (apiValidOrdering levels = true ↔
+      ((∀ i : Nat, i < levels.length → (i : Int) ∈ levels.map (·.2)) ∧
+       (∀ k ∈ levels.map (·.2), 0 ≤ k ∧ k < (levels.length : Int)))) ∧
+    (apiValidOrdering levels = false → ∀ other support,
+      assertIsomorphicOrders levels other support = .error .assertion ∧
+      (apiValidOrdering other = true →
+        assertIsomorphicOrders other levels support = .error .assertion)) := by
+  constructor
+  · unfold apiValidOrdering
+    simp only [Bool.and_eq_true, List.all_eq_true, List.mem_range, List.contains_iff_mem,
+      decide_eq_true_eq]
+  · intro hf other support
+    constructor
+    · simp [assertIsomorphicOrders, hf]
+    · intro ho
+      simp [assertIsomorphicOrders, hf, ho]
+
+/-- duplicate level, gap, negative level, level `≥ n`: all refused; a permutation is accepted -/
+example : apiValidOrdering [("a", 0), ("b", 0)] = false ∧
+    apiValidOrdering [("a", 0), ("b", 2)] = false ∧
+    apiValidOrdering [("a", -1), ("b", 0)] = false ∧
+    apiValidOrdering [("a", 1), ("b", 0)] = true := by decide
 
 end DD
